@@ -37,6 +37,19 @@ EXT = ".bmp"
 CODED_DEV = []
 
 
+_reported = {}
+
+
+def report(ck, key, what, case=None):
+    """ck.violation with a cap on replay files per key (a broken tree yields thousands of identical reports)"""
+    if not ck.is_known(key):
+        _reported[key] = _reported.get(key, 0) + 1
+        if _reported[key] > 40:
+            ck.extra["violation_reports_suppressed"] = ck.extra.get("violation_reports_suppressed", 0) + 1
+            return True
+    return ck.violation(key, what, case)
+
+
 # ---------------------------------------------------------------------------------------------- workers
 def run_workers(ck, jobs, tag, nproc=None):
     """distribute jobs over audit-hook subprocesses -> {job id: result}, meta"""
@@ -269,9 +282,9 @@ def judge_cmap(ck, site, group, res, meta, final):
             "other": outside[:5], "exception": res["exc"]}
     for kind, reg, rel in outside:
         if kind == "read" and same and blamed:
-            ck.violation("dev:CMapNameUnconfined", "site %s: %s read outside the resource directories" % (site, rel), case)
+            report(ck, "dev:CMapNameUnconfined", "site %s: %s read outside the resource directories" % (site, rel), case)
         else:
-            ck.violation("cmap:%s-outside:%s" % (kind, site), "site %s: %s %s (%s) although only the input and the character-map "
+            report(ck, "cmap:%s-outside:%s" % (kind, site), "site %s: %s %s (%s) although only the input and the character-map "
                          "resources may be touched" % (site, kind, rel, reg), case)
     if not same:
         ck.note("model/code drift at site %s name %r: opened %s, as-coded model %s" % (site, names[0], sorted(observed), sorted(predicted)))
@@ -308,9 +321,8 @@ def judge_image(ck, r, res):
     blocked = [e for e in res["events"] if e.get("blocked")]
     # (the sandbox stops a write above the scratch root before the kernel sees it; a name the kernel would have
     #  refused as too long creates nothing)
-    toolong = [e for e in blocked if any(len(c.encode("utf-8", "replace")) > 255 for c in str(e.get("path")).split("/"))]
-    noparent = [e for e in blocked if e not in toolong and not e.get("parent_exists", True)]
-    blocked = [e for e in blocked if e not in toolong and e not in noparent]
+    wouldfail = [e for e in blocked if e.get("would", "create") != "create"]
+    blocked = [e for e in blocked if e not in wouldfail]
     overw = [e for e in res["events"] if e["ev"] == "open" and e.get("write") and e.get("existed")]
     other = [e for e in res["events"] if e["ev"] != "open" and e["ev"] != "os.mkdir"]
     reads = []
@@ -334,10 +346,8 @@ def judge_image(ck, r, res):
             pred_created.add(os.path.join(*(c["dir"] + [fn])) if c["dir"] else fn)
     pred_err = None if r["er"] == "none" else r["er"]
     real_err = res["exc"]
-    if toolong and real_err == "PermissionError":
-        real_err = "OSError"
-    if noparent and real_err == "PermissionError":
-        real_err = "FileNotFoundError"
+    if wouldfail and real_err == "PermissionError":
+        real_err = wouldfail[0]["would"]
     if blocked:
         # the sandbox stopped the first write above the scratch root (and with it the extraction)
         same = set(created) <= pred_created and pred_above >= 1
@@ -353,19 +363,19 @@ def judge_image(ck, r, res):
                    "files_created": created})
     if outside or blocked:
         if same and r["bl"]:
-            ck.violation("dev:ImageNameUnconfined", "image named %r exported to %s" % (text.replace(root, "$ROOT")[:60], (outside or ["above the scratch root"])[0]), case)
+            report(ck, "dev:ImageNameUnconfined", "image named %r exported to %s" % (text.replace(root, "$ROOT")[:60], (outside or ["above the scratch root"])[0]), case)
         else:
-            ck.violation("image:write-outside", "image named %r: file created outside the output directory: %s"
+            report(ck, "image:write-outside", "image named %r: file created outside the output directory: %s"
                          % (text.replace(root, "$ROOT")[:60], outside or blocked), case)
     if res["modified"] or overw:
-        ck.violation("image:overwrite", "image named %r with pre-existing %r: an existing file was opened for writing / changed: %s"
+        report(ck, "image:overwrite", "image named %r with pre-existing %r: an existing file was opened for writing / changed: %s"
                      % (text.replace(root, "$ROOT")[:60], init, res["modified"] or [e["path"] for e in overw]), case)
     if res["deleted"] or other:
-        ck.violation("image:mutation", "image export removed/renamed files: %s %s" % (res["deleted"], [e["ev"] for e in other]), case)
+        report(ck, "image:mutation", "image export removed/renamed files: %s %s" % (res["deleted"], [e["ev"] for e in other]), case)
     if res["exc"] is None and (len(set(res["exports"])) != len(res["exports"]) or len(created) != len(res["exports"])):
-        ck.violation("image:duplicate-name", "%d exports produced %d files (%r)" % (len(res["exports"]), len(created), res["exports"]), case)
+        report(ck, "image:duplicate-name", "%d exports produced %d files (%r)" % (len(res["exports"]), len(created), res["exports"]), case)
     for reg, rel in reads:
-        ck.violation("image:read:" + reg, "image export read %s" % rel, case)
+        report(ck, "image:read:" + reg, "image export read %s" % rel, case)
     if not same:
         ck.note("model/code drift at the image site, name %r init %r draws %d: created %s error %s, as-coded model %s error %s"
                 % (r["n"], init, draws, created, res["exc"], sorted(pred_created), pred_err))
@@ -412,7 +422,7 @@ def direction_b(ck, dev):
         traces.append({"name": os.path.relpath(fn, "/repo"), "events": evs, "exc": r["exc"] or "none", "created": r["created"]})
         ck.case(1, ("b", fn) if evs else None)
         if r["modified"] or r["deleted"] or [c for c in r["created"] if not c.startswith("out" + os.sep)]:
-            ck.violation("b:tree-changed", "extraction of %s changed files outside the output directory: %s"
+            report(ck, "b:tree-changed", "extraction of %s changed files outside the output directory: %s"
                          % (fn, (r["created"], r["modified"], r["deleted"])), {"sample": fn})
     tf = os.path.join(ck.tmp, "c15_traces.json")
     verdicts = run_trace_spec(ck, traces, tf, "audit traces of extraction with output_dir over %d repository samples" % len(traces))
@@ -422,7 +432,7 @@ def direction_b(ck, dev):
             acc += 1
         else:
             ev = tr["events"][v["i"]]
-            ck.violation("trace:%s:%s" % (ev["k"], ev["region"]), "extraction of %s: audit event #%d %r is not allowed by FsTrace"
+            report(ck, "trace:%s:%s" % (ev["k"], ev["region"]), "extraction of %s: audit event #%d %r is not allowed by FsTrace"
                          % (tr["name"], v["i"] + 1, ev), {"sample": tr["name"], "event": ev})
     ck.traces += acc
     ck.extra["trace_events"] = sum(len(t["events"]) for t in traces)
@@ -504,9 +514,9 @@ def replay(path):
             res, meta = run_workers(ck, [image_job(0, r)], "replay", nproc=1)
             out = res[0]
             print("created:", out["created"], "modified:", out["modified"], "exception:", out["exc"],
-                  "blocked:", [e.get("path") for e in out["events"] if e.get("blocked")])
+                  "stopped above the scratch root:", [e.get("path") for e in out["events"] if e.get("blocked") and e.get("would") == "create"])
             bad = bool([c for c in out["created"] if not c.startswith("out/")] or out["modified"] or out["deleted"]
-                       or [e for e in out["events"] if e.get("blocked")])
+                       or [e for e in out["events"] if e.get("blocked") and e.get("would", "create") == "create"])
         elif "names" in case:
             group = [{"n": n, "rd": [], "bl": []} for n in case["names"]]
             res, meta = run_workers(ck, [cmap_job(0, case["site"], group)], "replay", nproc=1)
